@@ -54,6 +54,12 @@ static int alloc_fd() {
   return fd;
 }
 
+void kernel_dump_conns() {
+  for (auto &kv : conns) {
+    size_t pend = 0; for (auto &sg : kv.second.in) pend += sg.size();
+    ev("connq conn=%d pending=%zu segs=%zu eof=%d rst=%d closed=%d", kv.first, pend, kv.second.in.size(), (int)kv.second.eof, (int)kv.second.rst, (int)kv.second.server_closed);
+  }
+}
 int kernel_conn_of_fd(int fd) { auto it = fds.find(fd); if (it == fds.end() || it->second.kind != K_CONN) return fd == 0 ? -2 : -1; return it->second.conn; }
 bool kernel_is_simfd(int fd) { return fd >= SIMFD_BASE && fds.count(fd); }
 
